@@ -60,6 +60,19 @@ func (p *c05) Init(tier string, seed int64) {
 	for _, c := range ops {
 		p.table = append(p.table, &gen.ETern{c, &gen.EStr{"T"}, &gen.EStr{"F"}})
 	}
+	// every operand form as the subscript of a hash and of a list (the keys of a hash are strings: a number or a
+	// boolean finds the entry under its string form), written with brackets and - where it can be - with a dot
+	hash := func() gen.Expr {
+		return &gen.EGroup{&gen.EHash{[]gen.Expr{&gen.EStr{"1"}, &gen.EStr{""}, &gen.EStr{"0"}, &gen.EStr{"a"}, &gen.EStr{"2"}, &gen.EStr{"12"}, &gen.EStr{"abc"}, &gen.ENum{"3"}, &gen.ENum{"7"}},
+			[]gen.Expr{&gen.EStr{"one"}, &gen.EStr{"empty"}, &gen.EStr{"zero"}, &gen.EStr{"A"}, &gen.EStr{"two"}, &gen.EStr{"twelve"}, &gen.EStr{"ABC"}, &gen.EStr{"three"}, &gen.EStr{"seven"}}}}
+	}
+	list := func() gen.Expr {
+		return &gen.EArr{[]gen.Expr{&gen.EStr{"e0"}, &gen.EStr{"e1"}, &gen.EStr{"e2"}, &gen.EStr{"e3"}}}
+	}
+	for _, k := range ops {
+		p.table = append(p.table, &gen.EAttr{X: hash(), Key: k}, &gen.EAttr{X: list(), Key: k},
+			&gen.EAttr{X: hash(), Key: &gen.EGroup{&gen.EBin{">", k, &gen.ENum{"1"}}}}, &gen.EAttr{X: hash(), Key: &gen.EGroup{&gen.EUn{"not", k}}}, &gen.EAttr{X: hash(), Key: &gen.EGroup{&gen.EBin{"+", k, &gen.ENum{"1"}}}})
+	}
 }
 
 func (p *c05) N() int { return len(p.table) + p.nRand + len(c05RangeBounds)*len(c05RangeBounds) }
